@@ -248,7 +248,7 @@ static inline std::string strOf(size_t n, char c)
     return s;
 }
 
-static inline void cm(W& w, int prior, const int si[4], size_t vlen)
+static inline void cm(W& w, int prior, const size_t slen[4], size_t vlen)
 {
     using T = A::CaptureModulePayload;
     auto hdr = [](T& p) {
@@ -263,7 +263,7 @@ static inline void cm(W& w, int prior, const int si[4], size_t vlen)
         p.setData(strOf(1200, 3), strOf(5, 4), strOf(7, 5), strOf(1100, 6), Bytes(9, 0xEE));
     std::string s[4];
     for (int i = 0; i < 4; ++i)
-        s[i] = strOf(kStrLens[si[i]], (char) (i + 1));
+        s[i] = strOf(slen[i], (char) (i + 1));
     Bytes v = pat(vlen, 9);
     // the builder takes string_views: hand it views into ONE larger text in which every string is directly followed by
     // other characters (no NUL behind the view), as a slice of a config line or a fixed-width field would be
@@ -404,7 +404,22 @@ static inline void runCase(W& w, const std::string& cs)
         int si[4] = {0, 0, 0, 0};
         for (int i = 0; i < 4 && i < (int) p.size(); ++i)
             si[i] = atoi(p[i].c_str());
-        cm(w, prior, si, strtoull(kv["v"].c_str(), nullptr, 10));
+        size_t sl[4];
+        for (int i = 0; i < 4; ++i)
+            sl[i] = kStrLens[si[i]];
+        cm(w, prior, sl, strtoull(kv["v"].c_str(), nullptr, 10));
+    }
+    else if (cls == "cmx")
+    {
+        // ONE section at a byte / sign boundary of its 16-bit length prefix, the others short
+        int sec = atoi(kv["sec"].c_str());
+        size_t sl[4] = {2, 3, 1, 2};
+        size_t v = 3;
+        if (sec < 4)
+            sl[sec] = len;
+        else
+            v = len;
+        cm(w, prior, sl, v);
     }
     else if (cls == "if")
         iface(w, prior, strtoull(kv["sc"].c_str(), nullptr, 10), strtoull(kv["v"].c_str(), nullptr, 10));
@@ -417,7 +432,7 @@ static int runC13(mc::Run& run, const mc::Options& opt)
     const bool thorough = opt.tier == "thorough";
     run.rule = "per payload class: a first setData establishing prior contents {none, shorter, longer, same length other bytes} followed by the setData under test; CAN / "
                "CAN-FD (x 4 header variants incl. the RTR/RRS bit set before the data) / LIN every length 0..255; Ethernet / analog boundary lengths up to 65529 (thorough: every length 0..1600); capture-module 5^4 string-length "
-               "combinations x 4 vendor lengths; interface 9 stream-id counts x 6 vendor lengths; oracle: getters, preserved header fields, independent wire image, DLC "
+               "combinations x 4 vendor lengths + each of the 5 sections alone at 17 lengths around 0x7F/0x80, 0xFF/0x100, 0x17F/0x180, 0x7FFF/0x8000; interface 9 stream-id counts x 6 vendor lengths; oracle: getters, preserved header fields, independent wire image, DLC "
                "table, own validity check, real Decoder, raw bytes == fresh object; distinct = distinct (class, raw size, prior) outcomes";
     run.replay_case = [](W& w, const std::string& cs) { c13::runCase(w, cs); };
     if (!opt.case_file.empty())
@@ -458,6 +473,13 @@ static int runC13(mc::Run& run, const mc::Options& opt)
                             for (size_t v = 0; v < 4; ++v)
                                 cases.push_back(ofmt("cls=cm;prior=%d;s=%d,%d,%d,%d;v=%zu", prior, a, b, c, d, v));
     }
+    // capture-module sections at the byte / sign boundaries of the 16-bit length prefix (declared length = characters + NUL,
+    // padded to even): one section at a time
+    for (int prior = 0; prior < 3; ++prior)
+        for (int sec = 0; sec < 5; ++sec)
+            for (size_t len : {(size_t) 124, (size_t) 125, (size_t) 126, (size_t) 127, (size_t) 128, (size_t) 200, (size_t) 252, (size_t) 253, (size_t) 254, (size_t) 255, (size_t) 256,
+                               (size_t) 382, (size_t) 383, (size_t) 384, (size_t) 32766, (size_t) 32767, (size_t) 32768})
+                cases.push_back(ofmt("cls=cmx;prior=%d;sec=%d;len=%zu", prior, sec, len));
     const size_t chunk = 64;
     run.round("builder runs x prior contents", (cases.size() + chunk - 1) / chunk, [&](W& w, uint64_t o) {
         for (size_t i = o * chunk; i < std::min(cases.size(), (o + 1) * chunk); ++i)
